@@ -11,13 +11,15 @@ EmitOn == IOEnv.EMIT = "1"
 
 Plain(off, data) == [off |-> off, data |-> data, rle |-> FALSE]
 Rle(off, v, n)   == [off |-> off, data |-> Rep(v, n), rle |-> TRUE]
-Big == IOEnv.BIG = "1"
+Big == IOEnv.BIG \in {"1", "2"}
+\* BIG=2: files whose length is around a reader's buffer size (8192): the EOF marker straddles the boundary
+BufMenu == { Plain(256, [j \in 1..n |-> (j * 3) % 253]) : n \in 8170..8186 }
 BigMenu == { Plain(512, [j \in 1..65535 |-> (j * 7) % 251]), Rle(70000, 90, 65535), Plain(66047, <<1, 2, 3, 4>>) }
 SmallMenu == { Plain(0, <<1>>), Plain(3, <<7, 8, 9>>), Plain(6, <<10>>),           \* adjacent to the previous one
           Plain(66051, <<69, 79, 70>>),                                         \* data spells "EOF"
           Plain(32768, <<0, 0>>),
           Rle(16, 255, 3), Rle(19, 0, 1), Rle(4542277, 69, 2) }                  \* next to the EOF address
-Menu == IF Big THEN BigMenu ELSE SmallMenu
+Menu == IF IOEnv.BIG = "2" THEN BufMenu ELSE IF Big THEN BigMenu ELSE SmallMenu
 
 VARIABLE recs
 Init == recs = <<>>
